@@ -521,8 +521,11 @@ class Spectrum:
                              'If this Spectrum must be represented by a single '
                              'wavelength, consider using Spectrum.integrate() instead.')
 
+        # bin a converted copy so that the Spectrum itself keeps its units
+        spectrum = self
         if waveunit != self.waveunit:
-            self.to(waveunit)
+            spectrum = self.copy()
+            spectrum.to(waveunit)
 
         if interp_method == 'trapz':
             dx = np.diff(wave)/2
@@ -536,7 +539,8 @@ class Spectrum:
                 raise ValueError('Unknown ends ', ends)
 
             # sample
-            f = self.sample(x, method=sample_method, fill_value=fill_value)
+            f = spectrum.sample(x, method=sample_method, fill_value=fill_value,
+                                waveunit=waveunit)
 
             # apply the chained trapezoidal rule
             bins = np.array([])
@@ -561,7 +565,8 @@ class Spectrum:
                 raise ValueError('Unknown ends ', ends)
 
             # sample
-            f = self.sample(x, method=sample_method, fill_value=fill_value)
+            f = spectrum.sample(x, method=sample_method, fill_value=fill_value,
+                                waveunit=waveunit)
 
             # apply the chained simpson's rule
             bins = np.array([])
@@ -572,7 +577,7 @@ class Spectrum:
             raise ValueError('Unknown method ', interp_method)
 
         if preserve_power:
-            norm_factor = self.integrate(np.min(wave), np.max(wave), method=interp_method)/np.sum(bins)
+            norm_factor = spectrum.integrate(np.min(wave), np.max(wave), method=interp_method)/np.sum(bins)
             bins *= norm_factor
 
         return bins
